@@ -129,6 +129,19 @@ CHECKS.update({
          "DESIGN.md §3 C16"),
 })
 
+CHECKS.update({
+ "C01": ("E3 pure driver + E2 wire + E1 vmesh + E5 race detector", "exploration",
+         "runtime monitor: reference address verifier written directly on the hash libraries (std sha2/sha3, x/crypto blake2, blake3) compared with what the real code accepts at four entry points (stored identity load, signed peering request on a real wire, first-contact ping header, outermost announcement hop record) for valid identities, every single-field corruption and ground corrupt identities whose digest really matches; generator outputs checked against the same reference; Go race detector on the multi-core generator",
+         "Seeded identities over every valid hash algorithm and easing; every address bit, every hash-name/key-type/key-bytes/easing corruption, and corrupt key material ground until its digest maps into fd00::/8 are presented to AddressFromStorage, to a victim's real link setup, to a victim router as a ping and as an announcement hop record; acceptance must equal the reference verdict, and accepted ones must be registered under exactly the derived address; generated identities must satisfy prefix, ignore list, easing and verify.",
+         "Hash functions and Ed25519 are trusted; ground identities use at most 2^12..2^20 grinding steps per identity.",
+         "DESIGN.md §3 C01"),
+ "C13": ("E1 vmesh (sync handlers) + E2 wire (real link setup/reader) + real mycoria.New instance over loopback TCP", "exploration",
+         "runtime monitor: hostile-input search against long-lived victims with panic/stall oracles: mgr.ErrWorkerPanic from the handler hooks (sync), worker-panic alerts of the real managers, sentinel pongs and twice-sampled worker stacks (async), recovered panics at the parser, setup return after close (handshake)",
+         "Random and length-inconsistent bytes to the frame parser; random streams, every short length prefix, truncated/extended/bit-flipped genuine requests and correctly signed requests with hostile CBOR bodies to the real link setup; raw garbage and short link frames on established real links; an authenticated malicious peer with real keys and a real end-to-end session sending every ping type with fuzzed headers/bodies/header lengths, announcements with hop-record chains of depth 0..150 with per-layer corruptions (unknown algorithms, key sizes, loops, tiny/garbage inner attachments, bad signatures), traffic/session frames with inner/outer mismatch, too short, denied, and arbitrary frames with every kind of switch block, through the switch+router handlers of a vmesh victim (exact attribution) and through a real TCP link into a real relay-only instance with its worker pools.",
+         "A search, not an enumeration: silence means no panic/stall on the generated shapes; double release is observed through the repository's own guard (it panics).",
+         "DESIGN.md §3 C13"),
+})
+
 NOT_YET = "check not implemented yet in this revision of /verif (work in progress; see DESIGN.md §8)"
 
 def main():
